@@ -831,6 +831,52 @@ func c17aClassComment(class []string) string {
 	return " #" + strings.Join(class, "+")
 }
 
+// ---------------------------------------------------------------- stored data that a later read meets
+
+// c17aGenSeq: a document of the shape an index normally holds, mutated, is ingested into that index; then one of the
+// read routes over that index is asked (its valid request).  One line, one server: `sq … <prepare>`.
+func c17aGenSeq(r *rand.Rand, rts []c17aRoute) string {
+	type target struct {
+		index string
+		doc   string
+		reads []string // route ids
+	}
+	nowNano := int64(1700000000) * 1e9
+	targets := []target{
+		{"traces", c17aSpanDoc(nowNano, "c3c3c3c3c3c3c3c3c3c3c3c3c3c3c3c3", "b1b1b1b1b1b1b1b1", "", "c17svc", "c17op"),
+			[]string{"POST/api/traces/search", "POST/api/traces/ganttChart", "GET/jaeger/api/traces", "POST/api/traces/span/ganttChart", "POST/api/traces/count", "GET/jaeger/api/services", "POST/api/traces/generate-dep-graph"}},
+		{"service-dependency", c17aDepDoc, []string{"POST/api/traces/dependencies", "GET/jaeger/api/dependencies"}},
+		{"ind-0", `{"a":1,"b":"x","c":"p","d":0.5,"host":"h1","msg":"foo bar","nested":{"k":"v"},"arr":[1,2]}`,
+			[]string{"POST/api/search", "POST/elastic/{indexName}/_search", "POST/api/listColumnNames", "GET/api/search/ws"}},
+	}
+	t := targets[r.Intn(len(targets))]
+	doc := t.doc
+	if t.index == "traces" && r.Intn(2) == 0 { // the span the read routes ask for: the trace of the bootstrap
+		doc = c17aSpanDoc(c17aNowNanoToken, "c2c2c2c2c2c2c2c2c2c2c2c2c2c2c2c2", "a3a3a3a3a3a3a3a3", "a1a1a1a1a1a1a1a1", "c17svc", "c17child")
+	}
+	class := []string{"stored:" + t.index}
+	for n := 1 + r.Intn(2); n > 0; n-- {
+		var c string
+		doc, c = c17aMutJSON(r, doc)
+		class = append(class, c)
+	}
+	if !strings.HasPrefix(strings.TrimSpace(doc), "{") || strings.ContainsAny(doc, "\n") { // a bulk line holds one object
+		doc = t.doc
+	}
+	prep := c17aReqBytes("POST", "/elastic/_bulk", [][2]string{{"Content-Type", "application/json"}}, c17aBulkOf(t.index, doc))
+	want := t.reads[r.Intn(len(t.reads))]
+	for i := range rts {
+		if rts[i].id() == want && !rts[i].ws {
+			line := c17aGenValid(&rts[i])
+			f := strings.Fields(line)
+			if len(f) >= 4 && f[0] == "rq" {
+				return "sq " + f[1] + " " + f[2] + " " + f[3] + " i:" + hex.EncodeToString(prep) + c17aClassComment(class)
+			}
+		}
+	}
+	return c17aGenModelLine(r)
+}
+
 func c17aGen(r *rand.Rand, n int, tier string) []string {
 	rts := c17aRoutes()
 	var pick []*c17aRoute
@@ -853,6 +899,10 @@ func c17aGen(r *rand.Rand, n int, tier string) []string {
 	for len(out) < n {
 		if r.Intn(12) == 0 {
 			out = append(out, c17aGenModelLine(r))
+			continue
+		}
+		if r.Intn(14) == 0 {
+			out = append(out, c17aGenSeq(r, rts))
 			continue
 		}
 		out = append(out, c17aGenLine(r, pick[r.Intn(len(pick))]))
